@@ -531,6 +531,16 @@ class Ctx:
                 dest, callee, argtxt, nxt = m.group(1), m.group(2).strip(), m.group(3), int(m.group(4))
                 args = [self.operand(fr, a) for a in split_top(argtxt)] if argtxt.strip() else []
                 target = self.resolve_inline(callee, args)
+                mcl = re.match(r"^<\{closure@([^}]*)\} as Fn(?:Mut|Once)?<.*>>::call(?:_mut|_once)?$", callee)
+                if target is None and mcl and len(args) == 2:
+                    tag = "{closure@%s}" % mcl.group(1)
+                    cands = [f for fl in self.fns.values() for f in fl if f.args and tag in f.args[0][1] and "{closure#" in f.name]
+                    tup = args[1]
+                    if isinstance(tup, Ref):
+                        tup = self.read_place(tup.frame, tup.local, tup.proj)
+                    if len(cands) == 1 and isinstance(tup, Tup) and len(tup.items) == len(cands[0].args) - 1:
+                        target = cands[0]
+                        args = [args[0]] + list(tup.items)
                 if target is not None:
                     callee_fr = self.new_frame(target, args)
                     self.functions_seen.add(target.header)
@@ -618,7 +628,10 @@ class Ctx:
 
     def read_place(self, fr, l, proj):
         if l not in fr["vals"]:
-            raise Unsupported("read of unassigned local _%d in %s" % (l, fr["fn"].name))
+            if str(fr["fn"].locals.get(l, "")).lstrip("&").startswith("{closure@"):
+                fr["vals"][l] = Opaque("closure")      # a closure that captures nothing is a zero-sized value nobody assigns
+            else:
+                raise Unsupported("read of unassigned local _%d in %s" % (l, fr["fn"].name))
         v = fr["vals"][l]
         for pr in proj:
             if pr[0] == "downcast":
